@@ -337,10 +337,57 @@ def rest_part(case, res):
                                 [m.method for m in o['rpc']]), cell=cell)
                 if res['sample'] is None:
                     res['sample'] = {'cell': cell, 'status': o['status']}
+        _rest_listings(R, scope, res)
     finally:
         R.close()
         from oslo_config import cfg
         cfg.CONF.set_override('auth_enable', False, 'pecan')
+
+
+LIST_FILTERS = [{}, {'project_id': 'pA'}, {'all_projects': 'true'},
+                {'project_id': 'pA', 'fields': 'id,name'},
+                {'project_id': 'pA', 'limit': '5', 'sort_keys': 'id'},
+                {'scope': 'private'}, {'project_id': 'eq:pA'},
+                {'project_id': 'in:pA,pB'}, {'project_id': 'neq:pB'}]
+
+
+def _rest_listings(R, scope, res):
+    """Every listing endpoint as a non-admin of another project, plain and
+    with the filters a caller may pass (project_id in every filter syntax,
+    all_projects, fields, paging): either refused, or no row of pA's private
+    resources in the answer."""
+    from mvf.checks import c16
+    if scope != 'private':
+        return
+    lists = [t for t in c16.templates() if t['name'].endswith(':list') and
+             t['res'] not in c16.ADMIN_RES and t['res'] != 'members']
+    for t in lists:
+        for actor in ('pB', 'pB+'):
+            R.reset()
+            fxa = fixtures.make('pA', tag='one', scope=scope)
+            project = actor.rstrip('+')
+            fixtures.make(project, tag='two')
+            ids = set(v['id'] for v in fxa.values()
+                      if isinstance(v, dict) and v.get('id'))
+            for flt in LIST_FILTERS:
+                roles = 'member' if actor == 'pB' else \
+                    'member,load-balancer_admin'
+                o = c16._send(R, t, fxa, True, project=project, roles=roles,
+                              extra=flt)
+                cell = 'REST %s %s as %s on %s' % (t['name'], flt, actor,
+                                                   scope)
+                res['executions'] += 1
+                res['monitor_evaluations']['tenant-isolation'] += 1
+                res['keys'].append(['rest-list', cell])
+                body = o['body'] or ''
+                leaked = [s for s in ('out-one', 'pub-one', 'res-one',
+                                      'v-one', 'descr-one') if s in body]
+                leaked += [i for i in ids if i in body]
+                if o['status'] == 200 and leaked:
+                    viol(res, 'rest-private-listed',
+                         '%s: status 200 and the answer contains data of '
+                         'project pA (%s)' % (cell, leaked[:3]), cell=cell,
+                         filter=flt)
 
 
 def _kind(t):
